@@ -201,18 +201,22 @@ func (e *Env) buildStressPlan(id, loops int) *c12proc {
 		{Fn: "seed", S: hxs(m1), P: hxs("p1")},
 		{Fn: "seed", S: hxs(m1), P: hxs("p2")},
 		{Fn: "seed", S: hxs(m2), P: hxs("p1")},
+		// the same concatenation split at different places
+		{Fn: "seed", S: hxs(m1), P: hxs(" tail")},
+		{Fn: "seed", S: hxs(m1 + " "), P: hxs("tail")},
+		{Fn: "seed", S: hxs(m1 + " tail"), P: hxs("")},
 	}
 	p := &c12proc{id: 100000 + id, stress: true}
 	p.conc = &plan.Conc{GoMaxProcs: []int{16, 4, 8, 2}[id%4], Loops: loops}
 	G := []int{16, 8, 12}[id%3]
-	if id%8 == 5 {
+	if id%8 == 5 || id%8 == 2 {
 		// seed stress: every goroutine derives the same few seeds, and encodes, again and again
 		p.conc.Loops = loops / 20
 		if p.conc.Loops < 12 {
 			p.conc.Loops = 12
 		}
 		for w := 0; w < G; w++ {
-			ops := []plan.Op{seeds[w%3], pool[10+w%4], seeds[(w+1)%3], pool[(w*7)%len(pool)], seeds[(w+2)%3], pool[14+w%5]}
+			ops := []plan.Op{seeds[w%6], pool[10+w%4], seeds[(w+1)%6], pool[(w*7)%len(pool)], seeds[(w+3)%6], pool[14+w%5], seeds[(w+4)%6]}
 			for i := range ops {
 				ops[i].I = i
 			}
@@ -233,7 +237,7 @@ func (e *Env) buildStressPlan(id, loops int) *c12proc {
 			ops = append(ops, pool[r.Intn(len(pool))])
 		}
 		if w%4 == 0 {
-			ops = append(ops, seeds[r.Intn(len(seeds))])
+			ops = append(ops, seeds[r.Intn(3)])
 		}
 		for i := range ops {
 			ops[i].I = i
